@@ -232,7 +232,7 @@ def run(run):
     s.add(S.C.dom)
     run.witness('constraint set satisfiable', s.check() == z3.sat)
     rep.selfcheck(PROP, [{'check': 'H', 'point': pt, 'params': {'wa': wa, 'rates': rt, 'cls': c}} for wa in (True, False) for rt in (True, False) for c in CLASSES for pt in rep.points(1 if run.tier == 'quick' else 5)] +
-                  [{'check': 'sim', 'point': pt} for pt in rep.points(2)] + [{'check': 'sequence', 'point': {}, 'params': {'wa': True, 'rates': True, 'cls': c}} for c in CLASSES])
+                  [{'check': 'sim', 'point': pt} for pt in rep.points(2)] + [{'check': 'sequence', 'point': {}, 'params': {'wa': w_, 'rates': True, 'cls': c}} for c in CLASSES for w_ in (True, False)])
     for can in CANARIES:
         name = can[0]
         try:
@@ -310,8 +310,14 @@ def replay(spec):
                 fails.append('stamp %g: the absent time %.17g returned %s instead of None' % (t0, t0 + dt_, 'a measurement' if isinstance(got, tuple) else repr(got)[:80]))
     if spec.get('check') == 'sequence':
         first = ms.compute_matrices(1.0, pva, em)
-        ms.compute_matrices(1.0, pva, error_model.InsErrorModel(not wa))
+        other = ms.compute_matrices(1.0, pva, error_model.InsErrorModel(not wa))
         again = ms.compute_matrices(1.0, pva, em)
+        # the query in the OTHER altitude mode on the same object has the rows of that mode
+        rows_o = 3 if ((not wa) or cname == 'BodyVelocity') else 2
+        n_o = error_model.InsErrorModel(not wa).n_states
+        if np.shape(other[0]) != (rows_o,) or np.shape(other[1]) != (rows_o, n_o) or np.shape(other[2]) != (rows_o, rows_o):
+            fails.append('after a query with with_altitude=%s the same object queried with with_altitude=%s returns z%s H%s R%s, expected %d rows' % (
+                wa, not wa, np.shape(other[0]), np.shape(other[1]), np.shape(other[2]), rows_o))
         for a, b, nm in zip(first, again, 'zHR'):
             if np.shape(a) != np.shape(b) or not np.array_equal(np.asarray(a, dtype=float), np.asarray(b, dtype=float)):
                 fails.append('%s returned by compute_matrices changed after a query in the other altitude mode: shape %s -> %s' % (nm, np.shape(a), np.shape(b)))
@@ -373,4 +379,4 @@ RIM = {'lat': -84.6, 'lon': 150.0, 'alt': 15000.0, 'VN': 250.0, 'VE': -200.0, 'V
 
 def FALLBACK(tier):
     """numeric oracle specs put to the compiled code when the symbolic run is inconclusive (main.py)"""
-    return [{'check': 'H', 'point': p, 'params': {'wa': wa, 'rates': rt, 'cls': c}} for wa in (True, False) for rt in (True, False) for c in CLASSES for p in ({}, RIM)] + [{'check': 'sim', 'point': {}}] + [{'check': 'sequence', 'point': {}, 'params': {'wa': True, 'rates': True, 'cls': c}} for c in CLASSES]
+    return [{'check': 'H', 'point': p, 'params': {'wa': wa, 'rates': rt, 'cls': c}} for wa in (True, False) for rt in (True, False) for c in CLASSES for p in ({}, RIM)] + [{'check': 'sim', 'point': {}}] + [{'check': 'sequence', 'point': {}, 'params': {'wa': w_, 'rates': True, 'cls': c}} for c in CLASSES for w_ in (True, False)]
